@@ -84,7 +84,8 @@ def run(chk: core.Check, tier: str, seed: int) -> None:
     jp = core.import_repo()
     rng = random.Random(seed)
     # ---- MC + GEN -----------------------------------------------------------------
-    runs = [("SigmaFull", 3 if tier == "quick" else 4, None), ("SigmaEsc", 4 if tier == "quick" else 6, None),
+    # (sizes: 29^4 x 2 quotes = 1.4 M states, 13^5 x 2 = 0.74 M; one more symbol each is 10-30 GB of exported states)
+    runs = [("SigmaFull", 3 if tier == "quick" else 4, None), ("SigmaEsc", 4 if tier == "quick" else 5, None),
             ("SigmaHexQ", 13, 250 if tier == "quick" else 6000)]
     gen_states = {}
     for sigma, maxlen, sim in runs:
@@ -104,14 +105,17 @@ def run(chk: core.Check, tier: str, seed: int) -> None:
             line = line.strip()
             if line.startswith('"GEN '):
                 g = json.loads(json.loads(line)[4:])
-                gen_states[(g["quote"], tuple(g["body"]))] = g
+                # compact: millions of these are held at once in the thorough tier
+                gen_states[(g["quote"], tuple(g["body"]))] = (g["ok"], g["dead"], tuple(g["out"]) if g["ok"] else ())
+        del res
     keys = list(gen_states)
     lits_gen = [chr(q) + core.dec_text(b) + chr(q) for q, b in keys]
     with mp.Pool(core.NCPU) as pool:
         observed = pool.map(_observe_many, [lits_gen[i:i + 2000] for i in range(0, len(lits_gen), 2000)])
     observed = [x for ch in observed for x in ch]
     for (quote, body), lit, (res, val) in zip(keys, lits_gen, observed):
-        g = gen_states[(quote, body)]
+        ok_, dead_, out_ = gen_states[(quote, body)]
+        g = {"ok": ok_, "dead": dead_, "out": list(out_)}
         chk.evaluations += 1
         if g["ok"]:
             chk.nontrivial.add(lit)
@@ -126,9 +130,9 @@ def run(chk: core.Check, tier: str, seed: int) -> None:
                  "observed": [res, val]},
             )
     chk.traces += len(gen_states)
-    some = [g for g in gen_states.values() if g["ok"] and len(g["body"]) > 8][:1] + list(gen_states.values())[100:101]
-    for g in some:
-        chk.sample({"gen_state": {"literal": chr(g["quote"]) + core.dec_text(g["body"]) + chr(g["quote"]), "ok": g["ok"], "out": g["out"]}})
+    for (quote, body) in [k for k in keys if gen_states[k][0] and len(k[1]) > 8][:1] + keys[100:101]:
+        chk.sample({"gen_state": {"literal": chr(quote) + core.dec_text(list(body)) + chr(quote), "ok": gen_states[(quote, body)][0],
+                                  "out": list(gen_states[(quote, body)][2])}})
 
     # ---- TRACE: every code point, range-compressed ---------------------------------
     def cps_for(form):
